@@ -100,9 +100,23 @@ pub fn groups(tier: &FTier) -> Vec<InstSpec> {
     let params = param_grid(tier.thorough);
     let mut out = Vec::new();
     let mut idx: u64 = 0;
+    // wide step bounds and loose tolerances: trial stages of the explicit formulas overflow
+    let wide: [Params; 4] = [
+        (0.0, 3.0, 1e-6, 1.0, 1.0),
+        (0.0, 4.0, 1e-12, 2.0, 1e6),
+        (0.0, 2.0, 1e-5, 0.1, 1e-2),
+        (0.0, 1.0, 1e-6, 0.2, 1e-3),
+    ];
     for kind in KINDS {
         for problem in PROBLEMS {
-            for (pi, p) in params.iter().enumerate() {
+            let plist: Vec<Params> = if problem.overflows() {
+                params.iter().take(8).copied().chain(wide.iter().copied()).collect()
+            } else if tier.thorough {
+                params.iter().copied().chain(wide.iter().copied()).collect()
+            } else {
+                params.clone()
+            };
+            for (pi, p) in plist.iter().enumerate() {
                 if tier.thorough || tier.full_cross {
                     // quick: four dimension modes everywhere, all eight for two of the parameter sets
                     let dims: &[DimMode] = if tier.thorough || pi == 0 || pi == 4 { &dims_all } else { &dims_all[..4] };
@@ -186,6 +200,11 @@ fn account_site(st: &mut Stats, base: &InstSpec, r: &InstSummary, k: u64) {
     }
     if k == r.calls {
         st.probe("fault_on_last_call_of_reference_run");
+    }
+    if let Some((_, y)) = r.call_args.get((k as usize).wrapping_sub(1)) {
+        if *y == f64::INFINITY {
+            st.probe("fault_on_call_with_non_finite_state");
+        }
     }
     match locate(r, k) {
         Some((p, first, last, pk)) => {
@@ -277,6 +296,44 @@ fn choose_ks(tier: &FTier, r: &InstSummary, n: u64, truncated: bool, rng: &mut S
     ks.sort_unstable();
     ks.dedup();
     (ks, false)
+}
+
+fn next_down(x: f64) -> f64 {
+    // the largest float below x (x finite)
+    if x == 0.0 {
+        return -f64::MIN_POSITIVE * f64::EPSILON;
+    }
+    let b = x.to_bits();
+    f64::from_bits(if x > 0.0 { b - 1 } else { b + 1 })
+}
+
+/// A domain-failure plan placed from the recorded arguments of a reference run so that it
+/// first fires at (or before) call k: "fails beyond this time", "fails when the state is this
+/// large", "fails inside this time window". Also returns the call at which it must fire first.
+pub fn domain_plan(rng: &mut SplitMix64, args: &[(f64, f64)], k: u64) -> Option<(FaultPlan, u64)> {
+    if args.is_empty() {
+        return None;
+    }
+    let k = (k.max(1) as usize).min(args.len());
+    let (t, y) = args[k - 1];
+    if !t.is_finite() {
+        return None;
+    }
+    let plan = match rng.below(4) {
+        0 | 1 => FaultPlan::TimeAbove(next_down(t).to_bits()),
+        2 if y.is_finite() && y > 0.0 => FaultPlan::NormAbove(next_down(y).to_bits()),
+        _ => {
+            // a window around t_k about as wide as the distance to a neighbouring call
+            let other = if k >= 2 { args[k - 2].0 } else if args.len() > k { args[k].0 } else { t + 1e-3 };
+            let mut w = (other - t).abs() * if rng.chance(0.5) { 0.5 } else { 3.0 };
+            if !(w > 0.0) || !w.is_finite() {
+                w = 1e-6;
+            }
+            FaultPlan::TimeWindow((t - w).to_bits(), (t + w).to_bits())
+        }
+    };
+    let first = args.iter().enumerate().find(|(i, (t, y))| plan.fails(*i as u64 + 1, *t, *y)).map(|(i, _)| i as u64 + 1)?;
+    Some((plan, first))
 }
 
 pub struct GroupOutcome {
@@ -405,12 +462,52 @@ pub fn run_group(seed: u64, gi: u64, base: &InstSpec, tier: &FTier, st: &mut Sta
             }
         }
     }
+    // the most common domain failure of all: the derivative refuses a non-finite state
+    if !truncated && r.call_args.iter().any(|(_, y)| *y == f64::INFINITY) {
+        let plan = FaultPlan::NormAbove(f64::MAX.to_bits());
+        let first = r.call_args.iter().position(|(_, y)| *y == f64::INFINITY).map(|i| i as u64 + 1);
+        for (di, drive) in [Drive::Poll, Drive::CollectVec, Drive::PollThenCollect].into_iter().enumerate() {
+            sub += 1;
+            st.probe("non_finite_state_domain_plans");
+            let inst = InstSpec {
+                plan: plan.clone(),
+                payload: PAYLOADS[((gi + di as u64) % PAYLOADS.len() as u64) as usize],
+                drive,
+                extra_polls: 4,
+                ..base.clone()
+            };
+            let spec = RunSpec { instances: vec![inst], sched_seed: 0, phased: false, solo_baselines: true };
+            let res = execute(&spec, &[budget], &opts);
+            st.account_run((MODE_FGRID, gi, sub), &spec, &res.insts, res.fp);
+            if drive == Drive::Poll && res.violation.is_none() && res.insts[0].first_fired_call != first {
+                out.harness_errors.push(format!(
+                    "fault-grid group {} non-finite plan: first fired at {:?}, the reference run says {:?} (simulator not deterministic?)",
+                    gi, res.insts[0].first_fired_call, first
+                ));
+            }
+            if let Some(v) = res.violation {
+                st.violations.push(FoundViolation { id: (MODE_FGRID, gi, sub), spec, budgets: vec![budget], violation: v });
+                return out;
+            }
+        }
+    }
     // a few multi-failure plans per group
     let n = n_ref.max(1);
-    let extra_plans = if tier.thorough { 12 } else { 4 };
+    let extra_plans = if tier.thorough { 24 } else { 8 };
     for j in 0..extra_plans {
         let k = rng.range(1, n);
-        let plan = if j % 2 == 0 {
+        let mut expect_first: Option<u64> = None;
+        let plan = if j % 4 >= 2 && !truncated {
+            // domain failures: the call fails because of its arguments, not its number
+            match domain_plan(&mut rng, &r.call_args, k) {
+                Some((p, first)) => {
+                    expect_first = Some(first);
+                    st.probe("domain_fault_plans_placed");
+                    p
+                }
+                None => continue,
+            }
+        } else if j % 2 == 0 {
             FaultPlan::Burst(k, rng.range(2, 5))
         } else {
             let mut ks2 = vec![k];
@@ -433,6 +530,16 @@ pub fn run_group(seed: u64, gi: u64, base: &InstSpec, tier: &FTier, st: &mut Sta
         let spec = RunSpec { instances: vec![inst], sched_seed: 0, phased: false, solo_baselines: true };
         let res = execute(&spec, &[budget], &opts);
         st.account_run((MODE_FGRID, gi, sub), &spec, &res.insts, res.fp);
+        // self-check of the simulator: the run is the reference run up to the first call whose
+        // arguments are outside the domain, so that is where the plan must fire first
+        if let (Some(first), None) = (expect_first, &res.violation) {
+            if res.insts[0].first_fired_call != Some(first) {
+                out.harness_errors.push(format!(
+                    "fault-grid group {} domain plan: first fired at {:?}, the reference run says call {} (simulator not deterministic?)",
+                    gi, res.insts[0].first_fired_call, first
+                ));
+            }
+        }
         if let Some(v) = res.violation {
             st.violations.push(FoundViolation { id: (MODE_FGRID, gi, sub), spec, budgets: vec![budget], violation: v });
         }
